@@ -38,6 +38,7 @@ inductive GSite
   | protoMapWrite      -- dataplane/configuration.go buildServers: write into `rulesForProtocol[l.Source.Protocol]` (nil map)
   | backendPort        -- backend_refs.go getIPFamilyAndPortFromRef: `*ref.Port`
   | btpCaIndex         -- backend_tls_policy.go processBackendTLSPolicies: `CACertificateRefs[0]` on an empty non-nil list
+                       -- (GUARDED by `len(…) > 0` since commit cc3f1c7; fires only in the pre-fix mirror `processBtpPre`)
   | btpCaValidateIndex -- backend_tls_policy.go validateBackendTLSCACertRef: `CACertificateRefs[0]` (guarded by len != 1)
   | btpWellKnown       -- backend_tls_policy.go validateBackendTLSWellKnownCACerts: `*…WellKnownCACertificates`
   deriving DecidableEq, Repr
@@ -337,8 +338,19 @@ def validateBtp (b : BtpShape) : Except GSite (Bool × Bool × Nat) :=
       .ok (v0 && b.hostOk && e == 0, b.ancestorsFull, c1 + e)
     | none => .ok (false, b.ancestorsFull, c1 + 1)
 
-/-- `processBackendTLSPolicies`: `if valid && !ignored && CACertificateRefs != nil { … CACertificateRefs[0] … }` -/
+/-- `processBackendTLSPolicies` (current code, commit cc3f1c7):
+`if valid && !ignored && len(CACertificateRefs) > 0 { … CACertificateRefs[0] … }` — the index is behind the length. -/
 def processBtp (b : BtpShape) : Except GSite (Bool × Nat) :=
+  match validateBtp b with
+  | .error s => .error s
+  | .ok (valid, ignored, n) =>
+    if valid && !ignored && caLen b > 0 then
+      (if caLen b == 0 then .error .btpCaIndex else .ok (valid, n))
+    else .ok (valid, n)
+
+/-- the same BEFORE commit cc3f1c7: `if valid && !ignored && CACertificateRefs != nil { … CACertificateRefs[0] … }` —
+an empty NON-nil list (`caCertificateRefs: []`) reached the index.  Kept as a regression detector. -/
+def processBtpPre (b : BtpShape) : Except GSite (Bool × Nat) :=
   match validateBtp b with
   | .error s => .error s
   | .ok (valid, ignored, n) =>
